@@ -156,6 +156,18 @@ def binop(it, op, a, b, node, inplace=False):
             a.term = t  # s |= t mutates the set object (aliases see it)
             return a
         return SSet(t)
+    if isinstance(a, SSet) and isinstance(b, (set, frozenset)) and op is ast.BitOr:
+        # union with a concrete Python set of names (element by element)
+        t = a.term
+        for x in sorted(b, key=repr):
+            xt = str_term(x)
+            if xt is None:
+                it.outside("union of a set of names with a non-string element", node)
+            t = z3.SetAdd(t, xt)
+        if inplace:
+            a.term = t
+            return a
+        return SSet(t)
     # text
     if isinstance(a, (str, SFmt)) and isinstance(b, (str, SFmt)) and op is ast.Add:
         if isinstance(a, str) and isinstance(b, str):
